@@ -111,6 +111,30 @@ func SimC04(c *CheckCtx, i int, r *Rng) error {
 			}
 		}
 	}
+	contradict := false
+	if !real && !clash && i%6 == 4 {
+		// the package comment of a second file contradicts the first one (the same tag, on in one file and
+		// off in the other): whichever way the library resolves that, it resolves it the same way every time
+		for _, p := range m.Pkgs {
+			if len(p.Files) < 2 || len(p.DocTags) == 0 {
+				continue
+			}
+			p.DupDocTags = nil
+			for _, t := range p.DocTags {
+				o := t
+				if o.Sep == "=" && o.Val == "false" {
+					o.Sep, o.Val = "", ""
+				} else {
+					o.Sep, o.Val = "=", "false"
+				}
+				p.DupDocTags = append(p.DupDocTags, o)
+			}
+			contradict = true
+		}
+		if contradict {
+			c.Env.Stats.Add("probe/contradicting-package-tags-world", 1)
+		}
+	}
 	eps := drawEntrypoints(r, m)
 	if clash && r.P(0.6) {
 		// the package that mentions only one of the two clashing paths, generated without - or, where it
@@ -130,7 +154,7 @@ func SimC04(c *CheckCtx, i int, r *Rng) error {
 		a.Entrypoint = entry
 		return &RunOp{Args: a, Gens: gens, Sched: sched, Fresh: fresh}
 	}
-	sc := &Scenario{Kind: "compare-bytes", Module: m, Base: base}
+	sc := &Scenario{Kind: "compare-bytes", Module: m, Base: base, OnlyOwnOracles: contradict}
 	renameCase := !real && i%4 == 1
 	if renameCase {
 		// the world holds outputs written by OTHER versions of the generators, every run is forced: each
@@ -287,7 +311,7 @@ func SimC04(c *CheckCtx, i int, r *Rng) error {
 	}
 
 	// D4 on the same world, as a history of its own
-	fp := &Scenario{Kind: "history", Module: m, Base: base, Variants: []Variant{{Name: "fixedpoint", Ops: []Op{
+	fp := &Scenario{Kind: "history", Module: m, Base: base, OnlyOwnOracles: contradict, Variants: []Variant{{Name: "fixedpoint", Ops: []Op{
 		{Kind: "run", Run: mkRun(simrt.Schedule{Default: Pick(r, []string{"asc", "desc", "shuf"}), Seed: r.U64()}, args.Entrypoint, true)},
 		{Kind: "fixedpoint"},
 	}}}}
